@@ -170,6 +170,10 @@ impl<'b, 'a> Parser<'a, 'b> {
             LexemeKind::HexEmpty => {
                 Some((LexemeKind::Hex, "Missing digits after hexidecimal prefix."))
             }
+            // a NUL byte only ever starts a token (every sub-lexer stops in front of it)
+            LexemeKind::Ident if self.nth_raw(LOOKAHEAD_MAX).first() == Some(&0) => {
+                Some((LexemeKind::Ident, "Unexpected NUL byte"))
+            }
             _ => None,
         } {
             let mut range = self.nth_range(LOOKAHEAD_MAX);
